@@ -127,6 +127,18 @@ def eval_table(case):
     viol = []
     if vals != snap:
         viol.append(V("table/caller-dict-modified", "build_pvt_gas modified its gas_values argument", case=case))
+    # the caller edits the table it was given (unit conversion, dropped column) and asks for the same table again:
+    # the second table is a fresh one
+    if len(tab) and not case.get("default_pmax"):
+        first = tab.copy(deep=True)
+        tab["pressure"] -= 14.7
+        tab["viscosity"] *= 1e-3
+        tab.drop(columns=[c for c in tab.columns if c.lower() == "density"], inplace=True)
+        again = build_pvt_gas(dict(snap), dry, maximum_pressure=pmax)
+        if list(again.columns) != list(first.columns) or not np.array_equal(again.to_numpy(dtype=float), first.to_numpy(dtype=float)):
+            viol.append(V("table/second-call-sees-callers-edits", "after the caller edited the first table in place, a second "
+                          "build_pvt_gas call with the same arguments returns the edited table", case=case))
+        tab = first
     nh = gas.make_nonhydrocarbon_properties(*cont)
     tpc, ppc = gas.pseudocritical_point_Sutton(g, nh, dry)
     p = np.asarray(tab["pressure"], dtype=float)
